@@ -2186,6 +2186,17 @@ void jbn_remove_item(struct jbl_node *parent, struct jbl_node *child) {
   _jbn_remove_item(parent, child);
 }
 
+// heap copy of n bytes plus a terminating zero: names and strings of the binary form may hold zero bytes (strndup would stop
+// there and leave klidx / vsize larger than the buffer)
+static char* _jbl_bytes_dup(const char *p, size_t n) {
+  char *r = malloc(n + 1);
+  if (r) {
+    memcpy(r, p, n);
+    r[n] = '\0';
+  }
+  return r;
+}
+
 static iwrc _jbl_create_node(
   JBLDRCTX         *ctx,
   const binn       *bv,
@@ -2213,7 +2224,7 @@ static iwrc _jbl_create_node(
       n->key = iwpool_strndup(ctx->pool, key, klidx, &rc);
       RCGO(rc, finish);
     } else {
-      RCB(finish, n->key = strndup(key, klidx));
+      RCB(finish, n->key = _jbl_bytes_dup(key, klidx > 0 ? (size_t) klidx : 0));
     }
   } else {
     n->key = key;
@@ -2234,7 +2245,7 @@ static iwrc _jbl_create_node(
           n->vptr = iwpool_strndup(ctx->pool, bv->ptr, bv->size, &rc);
           RCGO(rc, finish);
         } else {
-          RCB(finish, n->vptr = strndup(bv->ptr, bv->size));
+          RCB(finish, n->vptr = _jbl_bytes_dup(bv->ptr, bv->size > 0 ? (size_t) bv->size : 0));
         }
         n->vsize = bv->size;
       }
